@@ -2,7 +2,7 @@
 //@ assume: T5: `Database<Bytes, Bytes>` / `RoTxn<'_, WithoutTls>` / `RwTxn<'a>` / `Env<WithoutTls>` => abstract types of the same names; heed errors are converted by `?` in the real code: the abstract heed methods return the store's Error directly; `Arc<HashMap<u8, Database>>` => abstract `PreDbs` with `get`; T6: `"db for provided key not found".to_string()` => `msg()`; `deserialize(key, res).map(Some)` => `res_map_some(deserialize(key, res))` (verified helper). Nothing else is rewritten.
 //@ assume: decided here (C18, sequential wrapper level): Batch::put / delete change exactly the addressed key of exactly the addressed database in THIS batch's write transaction (an unknown database key is an error and changes nothing); Batch::exists / get_with read THIS batch's own view -- writes made in the batch are visible inside it -- through a nested read transaction; Store::exists / get_with read through a transaction the caller supplies / a fresh read transaction over the COMMITTED state; Batch::child is a nested write transaction over this batch's view, holds no transaction counter of its own and refers to the same store; Batch::commit commits exactly this batch's transaction and reports its outcome; Batch::new opens its write transaction only after entering the transaction gate and keeps the counter for its lifetime; Store::batch runs the resize check before opening the batch.
 //@ assumed_items: 16
-//@ fns: Store::get_db, Store::get_with, Store::exists, Store::batch, Batch::new, Batch::put, Batch::put_ser_with_version, Batch::get_with, Batch::exists, Batch::delete, Batch::commit, Batch::child
+//@ fns: Store::get_db, Store::get_with, Store::exists, Store::batch, Batch::new, Batch::put, Batch::put_ser_with_version, Batch::put_ser, Batch::protocol_version, Batch::get_with, Batch::exists, Batch::delete, Batch::commit, Batch::child
 pub enum Error { NotFoundErr(String), LmdbErr(String), SerErr(SerError), FileErr(String), OtherErr(String) }
 #[verifier::external_body]
 pub struct SerError { _p: u8 }
@@ -150,6 +150,19 @@ impl<'a> Batch<'a> {
 //@   ensures:
 //@+    final(self).store == old(self).store, final(self).write.env@ == old(self).write.env@,
 //@+    r.is_ok() ==> final(self).write.view@ == old(self).write.view@.insert((sp_dbid(db_key), key@), value.sp_bytes(version)),
+//@+    r.is_err() ==> final(self).write.view@ == old(self).write.view@,
+//@ end
+//@ extract store/src/lmdb.rs :: impl Batch::protocol_version
+//@   ensures:
+//@+    r == self.store.version,
+//@ end
+//@ extract store/src/lmdb.rs :: impl Batch::put_ser
+//@   requires:
+//@+    sp_store_ok(*old(self).store),
+//@   ensures:
+//@+    // the value is stored in the STORE's own protocol version (what every later get_ser decodes with)
+//@+    final(self).store == old(self).store, final(self).write.env@ == old(self).write.env@,
+//@+    r.is_ok() ==> final(self).write.view@ == old(self).write.view@.insert((sp_dbid(db_key), key@), value.sp_bytes(old(self).store.version)),
 //@+    r.is_err() ==> final(self).write.view@ == old(self).write.view@,
 //@ end
 //@ extract store/src/lmdb.rs :: impl Batch::get_with
